@@ -373,6 +373,75 @@ theorem C22_conc_scan_sorted (puts : List (Bytes × Bytes × Nat)) (sched : List
   have := (C22_conc_sorted puts sched).1 0
   simpa [Skiplist.toList, Function.comp_def] using this
 
+namespace SkipConc
+
+theorem stepPut_vals (s : Skiplist) (l : PutLocal) :
+    ∃ newer, (stepPut s l).1.vals = newer ++ s.vals := by
+  unfold stepPut
+  split
+  · exact ⟨[], rfl⟩                                   -- start
+  · split <;> exact ⟨[], rfl⟩                         -- scan
+  · exact ⟨[(_, _)], rfl⟩                             -- setval: one fresh slot
+  · split <;> exact ⟨[], rfl⟩                         -- loadH
+  · split <;> exact ⟨[], rfl⟩                         -- casH
+  · split                                             -- link
+    · exact ⟨[], rfl⟩
+    · split
+      · exact ⟨[], rfl⟩
+      · split <;> exact ⟨[], rfl⟩
+  · split                                             -- linkScan
+    · exact ⟨[], rfl⟩
+    · split <;> exact ⟨[], rfl⟩
+    · exact ⟨[], rfl⟩
+  · split                                             -- cas
+    · exact ⟨[], rfl⟩
+    · split
+      · split                                         -- on level 0 the new node's slot is published
+        · exact ⟨[(l.key, l.v)], rfl⟩
+        · exact ⟨[], rfl⟩
+      · exact ⟨[], rfl⟩
+  · exact ⟨[], rfl⟩
+  · exact ⟨[], rfl⟩
+
+theorem run_vals (c : CState) (sched : List Nat) :
+    ∃ newer, (run c sched).s.vals = newer ++ c.s.vals := by
+  induction sched generalizing c with
+  | nil => exact ⟨[], rfl⟩
+  | cons t ts ih =>
+    obtain ⟨n2, h2⟩ := ih (step c t)
+    have h1 : ∃ n1, (step c t).s.vals = n1 ++ c.s.vals := by
+      unfold step
+      cases c.ts[t]? with
+      | none => exact ⟨[], rfl⟩
+      | some l => exact stepPut_vals c.s l
+    obtain ⟨n1, h1⟩ := h1
+    refine ⟨n2 ++ n1, ?_⟩
+    show (run (step c t) ts).s.vals = _
+    rw [h2, h1, List.append_assoc]
+
+end SkipConc
+
+open SkipConc in
+/-- **Value slots are immutable**: from any state, whatever the goroutines do afterwards, the
+    value log only grows at the front — every slot that existed (every `(offset, size)` word a
+    reader may have loaded, counted from the old end) still holds the same bytes.  `setValue`
+    and the publication of a new node allocate fresh slots.  (This is what makes it safe for
+    `Get` / `Iterator.Value` to return a `ValueStruct` that aliases the arena.) -/
+theorem C22_conc_value_immutable (c : CState) (sched : List Nat) :
+    (∃ newer, (run c sched).s.vals = newer ++ c.s.vals) ∧
+    ∀ (j : Nat) (slot : Bytes × Bytes), c.s.vals.reverse[j]? = some slot →
+      (run c sched).s.vals.reverse[j]? = some slot := by
+  obtain ⟨newer, h⟩ := run_vals c sched
+  refine ⟨⟨newer, h⟩, ?_⟩
+  intro j slot hj
+  rw [h, List.reverse_append]
+  have hlt : j < c.s.vals.reverse.length := by
+    rcases Nat.lt_or_ge j c.s.vals.reverse.length with h' | h'
+    · exact h'
+    · rw [List.getElem?_eq_none h'] at hj; cases hj
+  rw [List.getElem?_append_left hlt]
+  exact hj
+
 /-! non-vacuity: four goroutines, two of them putting the same key, one concrete schedule -/
 section Examples
 open SkipConc
